@@ -64,7 +64,10 @@ pub fn run(env: &Env) -> Report {
         let mut slots: Vec<Option<Obs>> = vec![];
         let mut unread: Vec<usize> = vec![];
         let ncalls = if under_valgrind { 40 + rng.below(60) } else { 50 + rng.below(if env.quick() { 300 } else { 1900 }) };
-        let keys: Vec<u16> = "abdeghiklmnorstuzxyKAIE.:'\"(1".chars().filter_map(code_for_char).collect();
+        // mostly letters (so that words form), plus EVERY published key code (number pad, symbols, keys without a character): whatever a
+        // key contributes to a string must come through the C interface byte for byte
+        let mut keys: Vec<u16> = "abdeghiklmnorstuzxyKAIE.:'\"(1abdeghiklmnorstuzxyKAIE".chars().filter_map(code_for_char).collect();
+        for k in KEYS { keys.push(k.1); }
         for _ in 0..ncalls {
             let live: Vec<usize> = (0..sess.len()).filter(|i| sess[*i].is_some()).collect();
             if live.is_empty() { break; }
